@@ -66,17 +66,18 @@ class Fail(Exception):
 class Rec:
     """what the hooks saw (the monitor's input, next to the log)"""
     def __init__(self):
-        self.trig = {}        # node -> [(time, outcome code, log length at that moment)]
+        self.seq = 0          # counter of recorded happenings (orders triggers, yields, processing)
+        self.trig = {}        # node -> [(time, outcome code, log length at that moment, seq)]
         self.created = {}     # node -> time
         self.tmo = {}         # node -> (created, delay, value)
-        self.yields = {}      # (actor, step) -> (time, target node or None)
+        self.yields = {}      # (actor, step) -> (time, target node or None, seq)
         self.intr = []        # (time, p, cause, alive, index in log)
         self.ops = []         # (actor, step, time, kind, node, was_triggered, raised, value_unchanged)
         self.cb_reg = {}      # cbid -> node
         self.cb_calls = []    # (cbid, time, out)
         self.ends = {}        # p -> (time, out)
         self.cond = {}        # node -> dict(kind, members, leaves, created, at_trigger=...)
-        self.processed = []   # (node, time, defused when its callbacks had run), in processing order
+        self.processed = []   # (node, time, defused when its callbacks had run, seq), in processing order
         self.alive_end = {}   # p -> bool
         self.result = None
         self.end_marker = None
@@ -103,6 +104,10 @@ class Runner:
     def now(self):
         return int(self.env.now)
 
+    def tick(self):
+        self.rec.seq += 1
+        return self.rec.seq
+
     def enc(self, val):
         if isinstance(val, ConditionValue):
             return [4] + [self.id_of.get(id(e), -1) for e in val.events]
@@ -128,7 +133,7 @@ class Runner:
             return
         v = ev._value
         out = None if v is None else self.enc(v[0] if v[1] is None else v[1])
-        self.rec.trig.setdefault(i, []).append((self.now(), out, len(self.log)))
+        self.rec.trig.setdefault(i, []).append((self.now(), out, len(self.log), self.tick()))
         c = self.rec.cond.get(i)
         if c is not None and len(self.rec.trig[i]) == 1:
             c['leaf_ok'] = [l for l in c['leaves'] if self.nodes[l].ok]
@@ -212,7 +217,7 @@ class Runner:
         for i, a in enumerate(script):
             if a[0] == 'yield':
                 tgt = self.build(a[1])
-                rec.yields[(p, i)] = (self.now(), a[1][1] if a[1][0] in ('ev', 'to', 'all', 'any') else None)
+                rec.yields[(p, i)] = (self.now(), a[1][1] if a[1][0] in ('ev', 'to', 'all', 'any') else None, self.tick())
                 try:
                     val = yield tgt
                     self.emit(p, i, self.enc(val))
@@ -240,7 +245,7 @@ class Runner:
                 await (usim.time + a[1])
                 self.emit(actor, i, [5])
             elif k == 'await':
-                self.rec.yields[(actor, i)] = (self.now(), a[1])
+                self.rec.yields[(actor, i)] = (self.now(), a[1], self.tick())
                 try:
                     val = await self.nodes[a[1]]
                     self.emit(actor, i, self.enc(val))
@@ -274,7 +279,7 @@ class Runner:
             finally:
                 i = hook_self.id_of.get(id(ev))
                 if i is not None:
-                    hook_self.rec.processed.append((i, hook_self.now(), bool(ev.defused)))
+                    hook_self.rec.processed.append((i, hook_self.now(), bool(ev.defused), hook_self.tick()))
         Event._trigger = hooked
         Event._invoke_callbacks = hooked_cbs
         try:
@@ -399,7 +404,7 @@ def monitor(g, log, rec):
         key = (actor, step)
         if key not in rec.yields or out[0] in (3, 8, 9, 13):
             continue
-        y, node = rec.yields[key]
+        y, node = rec.yields[key][:2]
         is_proc = actor < ACT_NAT
         if is_proc and out[0] == 1 and not (node is not None and trig_out.get(node) == out and not pend[actor]):
             # an Interrupt delivered by Process.interrupt
@@ -506,7 +511,7 @@ def monitor(g, log, rec):
             bad.append('the environment executed %s after env.until() had returned' % after[0])
         if res is not None and res[0] == 10 and stop_t is not None and log[rec.end_marker][2] != stop_t:
             bad.append('until=%s: env.until() returned at %d, not at the stop time %d' % (u, log[rec.end_marker][2], stop_t))
-    unhandled = [i for (i, t, defused) in rec.processed
+    unhandled = [i for (i, t, defused, _sq) in rec.processed
                  if not defused and i in trig_out and trig_out[i][0] in (1, 2)]
     if unhandled:
         # a failure counts as unhandled only if nobody was waiting for the event: whoever waited for it
@@ -514,7 +519,7 @@ def monitor(g, log, rec):
         i = unhandled[0]
         logged = {(e[0], e[1]): e[3:] for e in log[rec.trig[i][0][2]:]}     # resumptions after the trigger
         before = {(e[0], e[1]) for e in log[:rec.trig[i][0][2]]}
-        for (actor, step), (y, node) in rec.yields.items():
+        for (actor, step), (y, node, _sq) in rec.yields.items():
             if node == i and y < trig_time[i] and (actor, step) not in before:
                 if (actor, step) not in logged:
                     bad.append('event %d failed at %d while actor %d (step %d) had been waiting for it since %d, '
@@ -524,7 +529,9 @@ def monitor(g, log, rec):
                     bad.append('event %d failed at %d and its exception was raised in actor %d (step %d) waiting '
                                'for it, yet the failure was escalated as unhandled' % (i, trig_time[i], actor, step))
         for c_id, c in rec.cond.items():
-            if i in c['members'] and c['created'] < trig_time[i] and trig_time.get(c_id) == trig_time[i] \
+            failed_by_then = {m for m in c['members'] if m in trig_time and trig_out[m][0] in (1, 2)
+                              and trig_time[m] <= trig_time[i]}
+            if failed_by_then == {i} and c['created'] < trig_time[i] and trig_time.get(c_id) == trig_time[i] \
                     and trig_out.get(c_id) == trig_out[i]:
                 bad.append('event %d failed at %d and condition %d (waiting since %d) failed with it, yet the '
                            "member's failure was escalated as unhandled" % (i, trig_time[i], c_id, c['created']))
@@ -544,6 +551,32 @@ def monitor(g, log, rec):
             if stop_t is None or t_fail < stop_t:
                 bad.append('event %d failed at %d and nobody handled it, but the run ended normally' % (unhandled[0], t_fail))
     return bad
+
+
+def d21_signature(g, log, rec):
+    """known finding D21, exactly: the run raised the exception of the first failed event that was undefused
+    when processed, and a process yielded that event in the time step of the failure, after the trigger and
+    before the callbacks were processed, got the exception thrown in and handled it (catch clause)"""
+    res = rec.result
+    if res is None or res[0] != 11:
+        return None
+    un = [(i, sq) for (i, t, defused, sq) in rec.processed
+          if not defused and i in rec.trig and rec.trig[i][0][1][0] in (1, 2)]
+    if not un:
+        return None
+    i, psq = un[0]
+    t_i, out_i, _pos, tsq = rec.trig[i][0]
+    if res[1:] != out_i:
+        return None
+    for e in log:
+        key = (e[0], e[1])
+        if e[0] < ACT_NAT and key in rec.yields and e[3:] == out_i:
+            y, node, ysq = rec.yields[key]
+            if node == i and y == t_i and tsq < ysq < psq and g['procs'][e[0]]['script'][e[1]][2]:
+                return ('event %d failed at %d; process %d (step %d) yielded it later in the same time step, got %s '
+                        'thrown in and handled it, but the callbacks task had already seen defused == False: the run '
+                        'ended with %s' % (i, t_i, e[0], e[1], out_i, res[1:]))
+    return None
 
 
 # ---------------------------------------------------------------------------- generators
@@ -735,6 +768,9 @@ def corner_graphs():
           until=('time', 6), nats=[[['await', 0], ['wait', 1], ['await', 0]]], envpos=1),
         G([P(1, [Y(['any', 4, [['ev', 0], ['to', 3, 5, 1]]]), Y(['to', 6, 2, 1])]),
            P(2, [Y(['to', 5, 1, 0]), ['fail', 0, 8], Y(['to', 7, 3, 0])])]),
+        # D21 (known finding), directed: fail an event and yield it in the same step; the except clause handles
+        # the failure, the run ends with it nevertheless
+        G([P(1, [['fail', 0, 5], Y(['ev', 0]), Y(['to', 3, 1, 0])])]),
         # native delay / flag yields, interrupted and not
         G([P(1, [Y(['nd', 3]), Y(['nd', 0]), Y(['nf', 0])]), P(2, [Y(['to', 3, 1, 0]), ['intr', 0, 6]])],
           mode='emb', nflags=1, nats=[[['wait', 5], ['set', 0]]], until=('time', 9), envpos=1),
@@ -828,8 +864,14 @@ def check_one(ctx, g, family, note=True):
         ctx.fail(g, 'the run raised %r (only Fail / Interrupt of an unhandled failed event may leave run())' % (e,),
                  family=family)
         return None
-    for text in monitor(g, log, rec)[:1]:
+    bad = monitor(g, log, rec)
+    for text in bad[:1]:
         ctx.fail(g, text, family=family)
+    if not bad:
+        d21 = d21_signature(g, log, rec)
+        if d21:
+            ctx.fail(g, d21, finding='D21', family=family)
+            ctx.bump('known-finding:D21')
     if note:
         ctx.count(g, nontrivial=len(log) >= 3)
         ctx.bump('mode:' + g['mode'])
